@@ -397,6 +397,20 @@ func homeFile(decls string) string {
 	return sb.String()
 }
 
+// EnsureZoo adds the fixed packages of the current zoo that an (older) archive does not contain;
+// the behavioural driver imports all of them.
+func EnsureZoo(files hx.Files) hx.Files {
+	for _, f := range (&Prog{}).Files() {
+		if f.Name == SetupPath || f.Name == "go.mod" {
+			continue
+		}
+		if _, ok := files.Get(f.Name); !ok && !strings.HasPrefix(f.Name, "home/") {
+			files = append(files, f)
+		}
+	}
+	return files
+}
+
 // AllMethods lists (interface, method) pairs in source order.
 func (p *Prog) AllMethods() []*Method {
 	var out []*Method
